@@ -153,6 +153,15 @@ func monC01(c *runCtx) {
 			}
 		}
 	}
+	if c.shard == 1%c.of {
+		// large and extremely compressible payloads (ratio far beyond 100:1)
+		big := [][]byte{make([]byte, 3<<20), bytes.Repeat([]byte("heartbeat ok\n"), 4<<20/13), bytes.Repeat([]byte{'a'}, 2<<20+1)}
+		for bi, b := range big {
+			kt, kind := kindOf(bi)
+			doCase(idx, kt, kind, b, "huge-compressible")
+			idx++
+		}
+	}
 	for i := 0; i < n; i++ {
 		body, class := gen.Content(c.rng, maxSize)
 		kt, kind := kindOf(c.rng.IntN(3))
